@@ -10,7 +10,7 @@ ID = 'C10'
 TRANSLATORS = [t9_circuit_core.translate, t10_circuit_algos.translate]
 PROPERTY_FILE = 'Properties/C10.v'
 THEOREMS = ['C10_result_wf', 'C10_result_arities_accepted', 'C10_result_evaluates', 'C10_connect_left', 'C10_left_induced_assignment', 'C10_connect_right',
-            'C10_mapping_pairs', 'C10_mapping_keys', 'C10_new_labels_fresh',
+            'C10_mapping_pairs', 'C10_connectors_distinct', 'C10_no_pair_dropped', 'C10_mapping_keys', 'C10_new_labels_fresh',
             'C10_connect_left_wrapper', 'C10_connect_right_wrapper', 'C10_connect_inputs_wrapper',
             'C10_extend_circuit_left', 'C10_extend_circuit_right', 'C10_add_circuit',
             'C10_block_extract', 'C10_nub_first_nodup', 'C10_block_into_circuit_spec',
@@ -75,7 +75,7 @@ def gen_connect_case(rng):
         k = rng.randint(0, min(len(base['inputs']), 3))
         tc = rng.sample(base['inputs'], k)
         oc = [rng.choice(ol) for _ in tc] if ol else []
-        if rng.random() < 0.7:
+        if rng.random() < 0.85:      # a repeated gate of `other` is refused (it cannot replace two base inputs)
             oc = list(dict.fromkeys(oc))
         tc = tc[:len(oc)]
     else:
@@ -108,7 +108,9 @@ def gen_wrapper_case(rng):
     if kind == 'connect_left':
         w['tc'] = [rng.choice(bl) for _ in c['other']['inputs']] if bl else []
     elif kind == 'connect_right':
-        w['oc'] = [rng.choice(ol) for _ in c['base']['inputs']] if ol else []
+        n_in = len(c['base']['inputs'])
+        w['oc'] = ((rng.sample(ol, n_in) if len(ol) >= n_in and rng.random() < 0.8
+                    else [rng.choice(ol) for _ in range(n_in)]) if ol else [])
     elif kind == 'extend':
         w['right'] = rng.random() < 0.5
         r = rng.random()
